@@ -198,7 +198,8 @@ func (w *fileWriter) Commit(ctx context.Context, count int64) error {
 	var b [8]byte
 	binary.LittleEndian.PutUint64(b[:], uint64(count))
 	if _, err := w.Write(b[:]); err != nil {
-		return nil
+		w.File.Discard(ctx)
+		return err
 	}
 	return closeFile(ctx, w.File)
 }
